@@ -248,7 +248,86 @@ class Model:
         for st in init.node.body:
             if st is sup:
                 seen_super = True
-            self._scan_stmt(ic, init, st, top=True, before_super=not seen_super)
+            for st2 in self._written_out(init, st):
+                self._scan_stmt(ic, init, st2, top=True, before_super=not seen_super)
+
+    def _written_out(self, init, st):
+        """The declaration statement(s) `st` stands for, in the plain form `self.<field> = <AttributeClass>(<label>, k=v, ..)`:
+        a loop over a constant tuple of names with `setattr(self, name, Cls(name))` is one assignment per name; a local alias
+        (`make = partial(Cls, k=v)` / `make = Cls`) is replaced by what it stands for; `**<local dict literal>` is spelled
+        out.  Synthetic nodes keep the line numbers of the statements they come from."""
+        import copy
+        aliases, dicts = {}, {}
+        for a in init.node.body:
+            if isinstance(a, ast.Assign) and len(a.targets) == 1 and isinstance(a.targets[0], ast.Name):
+                v = a.value
+                if isinstance(v, ast.Call) and isinstance(v.func, (ast.Name, ast.Attribute)) and \
+                        (v.func.id if isinstance(v.func, ast.Name) else v.func.attr) == "partial" and v.args and \
+                        len(v.args) == 1:
+                    aliases[a.targets[0].id] = (v.args[0], list(v.keywords))
+                elif isinstance(v, (ast.Name, ast.Attribute)):
+                    t = self.ix.infer(v, Scope(self.ix, init))
+                    if t is not None and t[0] == "cls":
+                        aliases[a.targets[0].id] = (v, [])
+                elif isinstance(v, ast.Dict) and all(isinstance(k, ast.Constant) and isinstance(k.value, str)
+                                                      for k in v.keys):
+                    dicts[a.targets[0].id] = v
+                elif isinstance(v, ast.Call) and isinstance(v.func, ast.Name) and v.func.id == "dict" and not v.args \
+                        and all(k.arg for k in v.keywords):
+                    dicts[a.targets[0].id] = ast.Dict(keys=[ast.Constant(value=k.arg) for k in v.keywords],
+                                                      values=[k.value for k in v.keywords])
+
+        def plain(call):
+            call = copy.copy(call)
+            if isinstance(call.func, ast.Name) and call.func.id in aliases:
+                fn, kws = aliases[call.func.id]
+                call.func = fn
+                call.keywords = list(kws) + list(call.keywords)
+            kws = []
+            for k in call.keywords:
+                if k.arg is None and isinstance(k.value, ast.Name) and k.value.id in dicts:
+                    d = dicts[k.value.id]
+                    kws += [ast.keyword(arg=dk.value, value=dv) for dk, dv in zip(d.keys, d.values)]
+                else:
+                    kws.append(k)
+            call.keywords = kws
+            return call
+        if isinstance(st, ast.Assign) and len(st.targets) == 1 and is_self_attr(st.targets[0]) \
+                and isinstance(st.value, ast.Call):
+            new = copy.copy(st)
+            new.value = plain(st.value)
+            return [ast.fix_missing_locations(ast.copy_location(new, st))]
+        if isinstance(st, ast.For) and isinstance(st.target, ast.Name) and not st.orelse:
+            names = None
+            try:
+                names = const_eval(st.iter)
+            except NotConst:
+                if isinstance(st.iter, ast.Name) and st.iter.id in init.module.assigns:
+                    try:
+                        names = const_eval(init.module.assigns[st.iter.id])
+                    except NotConst:
+                        names = None
+            if isinstance(names, (list, tuple)) and names and all(isinstance(n, str) and n.isidentifier() for n in names):
+                out = []
+                for body_st in st.body:
+                    c = body_st.value if isinstance(body_st, ast.Expr) else None
+                    if not (isinstance(c, ast.Call) and isinstance(c.func, ast.Name) and c.func.id == "setattr" and
+                            len(c.args) == 3 and isinstance(c.args[0], ast.Name) and c.args[0].id == "self" and
+                            isinstance(c.args[1], ast.Name) and c.args[1].id == st.target.id and
+                            isinstance(c.args[2], ast.Call)):
+                        return [st]
+                    for n in names:
+                        class _Sub(ast.NodeTransformer):
+                            def visit_Name(self, node, n=n):
+                                if node.id == st.target.id:
+                                    return ast.copy_location(ast.Constant(value=n), node)
+                                return node
+                        call = _Sub().visit(copy.deepcopy(c.args[2]))
+                        asg = ast.Assign(targets=[ast.Attribute(value=ast.Name(id="self", ctx=ast.Load()), attr=n,
+                                                                ctx=ast.Store())], value=plain(call))
+                        out.append(ast.fix_missing_locations(ast.copy_location(asg, body_st)))
+                return out
+        return [st]
 
     def _scan_stmt(self, ic, init, st, top, before_super):
         if isinstance(st, ast.Assign) and len(st.targets) == 1 and is_self_attr(st.targets[0]) \
